@@ -349,6 +349,22 @@ func runC06(c *core.Ctx) {
 				(mp.FPort == nil) != (d.Spec.FPort < 0) || (mp.FPort != nil && int(*mp.FPort) != d.Spec.FPort) || [4]byte(out.MIC) != mic {
 				c.Violate("C06|frame|data|decode", "spec bytes %x decode to %s", want, short(core.Dump(out), 500))
 			}
+			// ... and the MAC commands carried in FOpts / on port 0 decode to the values the table gives for
+			// each command's own bytes (also inside blocks of the same command)
+			if mp != nil && !d.FOptsRaw && len(d.Spec.FOpts) > 0 {
+				if err := out.DecodeFOptsToMACCommands(); err != nil {
+					c.Violate("C06|frame|data|fopts-commands-refused", "%x: %v", d.Spec.FOpts, err)
+				} else if g, w := core.Dump(mp.FHDR.FOpts), core.Dump(d.FOpts); g != w {
+					c.Violate("C06|frame|data|fopts-commands", "FOpts %x decode to\n %s\nthe table says\n %s", d.Spec.FOpts, short(g, 500), short(w, 500))
+				}
+			}
+			if mp != nil && d.FRMIsMAC && len(d.Spec.FRMPayload) > 0 {
+				if err := out.DecodeFRMPayloadToMACCommands(); err != nil {
+					c.Violate("C06|frame|data|port0-commands-refused", "%x: %v", d.Spec.FRMPayload, err)
+				} else if g, w := core.Dump(mp.FRMPayload), core.Dump(d.FRM); g != w {
+					c.Violate("C06|frame|data|port0-commands", "port-0 payload %x decodes to\n %s\nthe table says\n %s", d.Spec.FRMPayload, short(g, 500), short(w, 500))
+				}
+			}
 			c.Shape("frame-data", d.Spec.MType, len(d.Spec.FOpts), d.portKind)
 		case 2:
 			je, de, nonce := eui(r), eui(r), uint16(r.U32Edge())
